@@ -1,7 +1,7 @@
 """Per-property registry and the generic check runner."""
 import json, os, sys, time
 from . import common as C
-from . import gen_civil, gen_posix, gen_zone, gen_fmt
+from . import gen_civil, gen_posix, gen_zone, gen_fmt, gen_sched
 
 REGISTRY = {}
 
@@ -223,3 +223,117 @@ reg("C07", gen=gen_fmt.gen_c07)
 reg("C08", gen=gen_fmt.gen_c08, ub_is_violation=True)
 reg("C09", gen=gen_fmt.gen_c09, ub_is_violation=True)
 reg("C18", gen=gen_fmt.gen_c18, ub_is_violation=False)
+
+
+# ----------------------------------------------------------------------------
+# C13 / C20: schedules (separate thread harness; TSan stress for C13)
+
+def sched_zones():
+    from . import tzif
+    import os
+    a = open(os.path.join(tzif.ZONEINFO, "America/New_York"), "rb").read()
+    b = open(os.path.join(tzif.ZONEINFO, "Asia/Tokyo"), "rb").read()
+    return [("A", a), ("B", b), ("X", b"TZif-broken" + b"\0" * 60)]
+
+
+def run_sched(pid, spec, tier, seed, work, t0, no_prove):
+    import subprocess
+    rng = C.Rng(seed * 7919 + sum(map(ord, pid)))
+    known = C.load_known(pid)
+    const_status = C.regen_constants()
+    gate = C.grep_gate()
+    pr = {"obligations": ["(skipped)"], "discharged": [], "failed": [], "axioms": {}, "log": ""} if no_prove else C.prove(pid)
+    proof_ok = (not pr["failed"]) and (not gate) and len(pr["obligations"]) > 0
+    op = "sched20" if pid == "C20" else "sched"
+    cases = corpus_cases(pid) + gen_sched.schedules(tier, rng, op)
+    zones = sched_zones()
+    zt = os.path.join(work, "zones.txt")
+    gen_zone.write_table(zt, zones)
+    env = {"VERIF_ZONES": zt}
+    drv, dlog = C.build_driver()
+    har, hlog = C.build_harness(harness_src="thr_harness.cc")
+    if drv is None or har is None:
+        p = C.write_replay(pid, {"property": pid, "kind": "build-failure", "detail": (dlog or "")[-2000:] + (hlog or "")[-2000:]})
+        print("VIOLATION property=%s replay=%s no-failing-input-found" % (pid, p))
+        return 1
+    # the thread harness takes bare schedules (without the op word)
+    bare = [c.split(" ", 1)[1] for c in cases]
+    impl, fails = C.run_sharded(har, bare, work, "impl", env=env)
+    drvl, dfails = C.run_sharded(drv, cases, work, "drv", env=env)
+    v = C.compare(cases, impl, drvl, fails)
+    # ThreadSanitizer stress (C13 only)
+    tsan_note = {}
+    tsan_bad = None
+    if pid == "C13":
+        th, tlog = C.build_harness(variant="tsan", harness_src="thr_harness.cc")
+        if th is None:
+            tsan_note = {"tsan_build": "failed: " + (tlog or "")[-300:]}
+        else:
+            runs = [(seed * 10 + i, n, it) for i, (n, it) in enumerate([(4, 300), (16, 150), (64, 40)] if tier == "quick" else [(4, 3000), (16, 1500), (64, 600), (64, 600), (32, 1500)])]
+            e = dict(os.environ)
+            e.update(env)
+            e["TSAN_OPTIONS"] = "halt_on_error=0:second_deadlock_stack=1:exitcode=66"
+            e["TZDIR"] = os.path.join(C.REPO, "testdata", "zoneinfo")
+            e["TZ"] = "America/Chicago"
+            for (sd, n, it) in runs:
+                r = subprocess.run(["timeout", "600", th, "stress", str(sd), str(n), str(it)], env=e, stdout=subprocess.PIPE, stderr=subprocess.PIPE, text=True)
+                tsan_note["stress_%d_%d_%d" % (sd, n, it)] = "rc=%d" % r.returncode
+                if "ThreadSanitizer" in r.stderr or r.returncode != 0:
+                    tsan_bad = {"seed": sd, "threads": n, "iters": it, "rc": r.returncode, "report": r.stderr[-4000:]}
+                    break
+    rc, violations = 0, 0
+    reported = set()
+    new_prop = []
+    for item in v.prop_fail:
+        e = C.match_known(known, item[1])
+        if e:
+            if e["id"] not in reported:
+                reported.add(e["id"])
+                print("KNOWN-FINDING: property=%s %s" % (pid, e["what"]))
+        else:
+            new_prop.append(item)
+    new_corr = [it for it in v.corr_fail if not C.match_known(known, it[1])]
+    if tsan_bad:
+        p = C.write_replay(pid, {"property": pid, "kind": "data-race", "stress": tsan_bad,
+                                 "replay_cmd": "<tsan thr_harness> stress %d %d %d" % (tsan_bad["seed"], tsan_bad["threads"], tsan_bad["iters"])})
+        print("ThreadSanitizer report (seed %d, %d threads):\n%s" % (tsan_bad["seed"], tsan_bad["threads"], tsan_bad["report"][-1500:]))
+        print("VIOLATION property=%s replay=%s" % (pid, p))
+        rc, violations = 1, 1
+    elif new_prop:
+        new_prop.sort(key=lambda it: (len(it[1]), it[0]))
+        idx, case, il, M, S, why = new_prop[0]
+        p = C.write_replay(pid, {"property": pid, "kind": "failing-schedule", "seed": seed, "tier": tier, "case": case,
+                                 "implementation": il, "model": M, "specification": S, "why": why,
+                                 "zones": {z: d.hex() for z, d in zones}})
+        print("failing schedule: %s\n  implementation: %s\n  specification:  %s\n  (%s; %d such)" % (case, il, S, why, len(new_prop)))
+        print("VIOLATION property=%s replay=%s" % (pid, p))
+        rc, violations = 1, len(new_prop)
+    elif new_corr or not proof_ok:
+        p = C.write_replay(pid, {"property": pid, "kind": "unchecked", "failed_theorems": pr["failed"], "forbidden_vernacular": gate,
+                                 "coq_log_tail": pr["log"][-3000:],
+                                 "correspondence_mismatches": [{"case": it[1], "implementation": it[2], "model": it[3], "why": it[5]} for it in new_corr[:20]]})
+        if not proof_ok:
+            print("proof obligations not discharged:", pr["failed"] or gate or "none registered")
+            print(pr["log"][-1500:])
+        for it in new_corr[:5]:
+            print("correspondence mismatch: %s\n  impl : %s\n  model: %s   (%s)" % (it[1], it[2], it[3], it[5]))
+        print("VIOLATION property=%s replay=%s no-failing-input-found" % (pid, p))
+        rc, violations = 1, max(1, len(new_corr))
+    samples = [{"schedule": cases[k], "implementation": impl[k], "model": drvl[k]} for k in range(0, len(cases), max(1, len(cases) // 6))][:8]
+    cov = {"obligations": max(1, len(pr["obligations"])), "discharged": len(pr["discharged"]), "theorems": pr["obligations"],
+           "failed_theorems": pr["failed"], "assumptions_printed": pr["axioms"],
+           "checker_cmd": "make -C /verif/coq ; coqc Properties_%s.v ; Print Assumptions" % pid,
+           "trusted_base": C.TRUSTED_BASE + ["thread harness with a parking zone_info_source_factory; ThreadSanitizer (g++ -fsanitize=thread)"],
+           "constants_tie": const_status, "evaluations": len(cases), "distinct_nontrivial": len(set(cases)),
+           "rule": "every interleaving of Start/Release events of k loader threads (k<=3 quick, <=4 thorough) over name assignments from {valid A, valid B, invalid X, fixed-offset, UTC}, followed by random repeat loads; each schedule executed in a fresh process and compared with the model's exec; non-trivial = distinct schedule",
+           "samples": samples, "schedules": len(cases), "tsan": tsan_note, "correspondence_mismatches": len(v.corr_fail),
+           "known_findings_hit": sorted(reported), "exhaustive": True}
+    C.write_evidence(pid, tier, seed, cov, time.time() - t0, violations,
+                     ["std::mutex / std::atomic / function-local statics behave as the C++ memory model says", "the data source is a function of the name"])
+    if rc == 0:
+        print("OK property=%s tier=%s schedules=%d theorems=%d/%d wall=%.1fs" % (pid, tier, len(cases), len(pr["discharged"]), len(pr["obligations"]), time.time() - t0))
+    return rc
+
+
+reg("C13", custom=run_sched)
+reg("C20", custom=run_sched)
